@@ -3,7 +3,8 @@
 usage: tools/seed_eval.py <seed-id> <worktree> <demo-example-name> <breaks-property> <check ids...>"""
 import sys, subprocess, os, json, shutil, time
 sid, wt, demo, prop = sys.argv[1:5]
-checks = sys.argv[5:]
+checks = [c for c in sys.argv[5:] if not c.startswith("--")]
+feat = " --features serde,linalg" if "--features" in sys.argv else ""
 out = os.path.join("/verif/seeded", sid)
 os.makedirs(out, exist_ok=True)
 def run(cmd, cwd, timeout=3000):
@@ -19,12 +20,12 @@ rc, o = run("cargo test --offline 2>&1 | grep -E '^test result|error' ", wt)
 passed = sum(int(l.split()[3]) for l in o.splitlines() if l.startswith("test result"))
 failed = sum(int(l.split()[5]) for l in o.splitlines() if l.startswith("test result"))
 meta["ran"].append({"cmd": "cargo test --offline (with change)", "passed": passed, "failed": failed})
-rc1, o1 = run("cargo run --offline --example %s 2>&1 | tail -5" % demo, wt)
-rc1, _ = run("cargo run -q --offline --example %s >/dev/null 2>&1" % demo, wt)
+rc1, o1 = run("cargo run --offline%s --example %s 2>&1 | tail -5" % (feat, demo), wt)
+rc1, _ = run("cargo run -q --offline%s --example %s >/dev/null 2>&1" % (feat, demo), wt)
 meta["ran"].append({"cmd": "demo with change", "exit": rc1, "tail": o1[-600:]})
 # 3. without the change: demo passes
 run("git stash push -- src", wt)
-rc2, _ = run("cargo run -q --offline --example %s >/dev/null 2>&1" % demo, wt)
+rc2, _ = run("cargo run -q --offline%s --example %s >/dev/null 2>&1" % (feat, demo), wt)
 run("git stash pop", wt)
 meta["ran"].append({"cmd": "demo without change", "exit": rc2})
 meta["confirmed"] = bool(failed == 0 and passed >= 459 and rc1 != 0 and rc2 == 0)
